@@ -187,8 +187,8 @@ var (
 	fxs     = map[int]string{1: `{\i1}`, 2: `{\pos(400,570)}`}
 )
 var textPools = []map[int]string{
-	{1: "Hello, world", 2: "second text", 3: "a:b;c, d"},
-	{1: "ünï cödé, 日本語", 2: "x < y & z", 3: "\U0001F600 1,2,3"},
+	{0: "", 1: "Hello, world", 2: "second text", 3: "a:b;c, d"}, // atom 0: an override block with no text after it
+	{0: "", 1: "ünï cödé, 日本語", 2: "x < y & z", 3: "\U0001F600 1,2,3"},
 }
 
 type Pool struct{ Text map[int]string }
